@@ -24,10 +24,10 @@ def gen_history(rng, n_series, length):
         elif r < 0.75:
             ops.append({'op': 'set_suppress', 'value': rng.random() < 0.6})
         elif r < 0.9:
-            ops.append({'op': 'csv', 'fmt': rng.choice(['%.5g', '%r', '%.12e'])})
+            ops.append({'op': 'csv', 'fmt': rng.choice(['%.5g', '%r', '%.12e', None, None, '%.2f'])})
         else:
             ops.append({'op': 'holder_csv', 'group': rng.choice(['main', 'step', 'initial']),
-                        'fmt': rng.choice(['%.5g', '%r'])})
+                        'fmt': rng.choice(['%.5g', '%r', None, None, '%.3e'])})
     return ops
 
 
@@ -42,7 +42,7 @@ class C16(object):
             'return value with the reference slice; BaseSolver.CreateCsvString histories likewise; distinct = hash of '
             '(holder data, history); non-trivial = >= 2 reads of which one with suppression or mutation')
     assumptions = ['series are non-empty when time-zero suppression is on', 'cutoffs are non-negative']
-    required_counters = ('get.judged', 'get.suppressed', 'get.mutated_return', 'csv.judged', 'basesolver.judged',
+    required_counters = ('get.judged', 'get.suppressed', 'get.mutated_return', 'csv.judged', 'csv.default_format', 'basesolver.judged',
                          'insitu.gettimeseries.post_evaluated')
 
     def n_cases(self, tier):
@@ -106,6 +106,7 @@ class C16(object):
         solver = mod.EquationSolver
         reads = 0
         stressed = 0
+        rendered = {}
         for op in case['history']:
             snap = monitors.snapshot_holders(solver)
             if op['op'] == 'set_default_cutoff':
@@ -154,14 +155,16 @@ class C16(object):
                                      'stored_after': list(getattr(solver, {'main': 'TimeSeries', 'step': 'TimeSeriesStepTrace', 'initial': 'TimeSeriesInitialSteadyState'}[op['group']])[name])[:8]})
                         break
             elif op['op'] in ('csv', 'holder_csv'):
+                fmt = op['fmt']
                 if op['op'] == 'csv':
-                    f = lambda: solver.GenerateCSVtext(op['fmt'])
-                    hold = snap['main']
+                    f = (lambda: solver.GenerateCSVtext()) if fmt is None else (lambda: solver.GenerateCSVtext(fmt))
+                    hold, memo_key = snap['main'], ('solver', fmt)
                 else:
                     attr = {'main': 'TimeSeries', 'step': 'TimeSeriesStepTrace',
                             'initial': 'TimeSeriesInitialSteadyState'}[op['group']]
-                    f = lambda: getattr(solver, attr).GenerateCSVtext(op['fmt'])
-                    hold = snap[op['group']]
+                    f = ((lambda: getattr(solver, attr).GenerateCSVtext()) if fmt is None else
+                         (lambda: getattr(solver, attr).GenerateCSVtext(fmt)))
+                    hold, memo_key = snap[op['group']], (op['group'], fmt)
                 try:
                     t1 = f()
                     t2 = f()
@@ -169,16 +172,25 @@ class C16(object):
                     rec.violate('render_raised', {'op': op, 'err': repr(e)})
                     break
                 rec.count('csv.judged')
+                if fmt is None:
+                    rec.count('csv.default_format')
                 if t1 != t2:
                     rec.violate('render_not_repeatable', {'op': op, 'first': t1[:200], 'second': t2[:200]})
                     break
+                # the same stored series and the same arguments give the same text across the whole history
+                if memo_key in rendered and rendered[memo_key] != t1:
+                    rec.violate('render_not_repeatable', {'op': op, 'earlier_in_history': rendered[memo_key][:200],
+                                                          'now': t1[:200]})
+                    break
+                rendered[memo_key] = t1
                 if not monitors.same_holders(snap, monitors.snapshot_holders(solver)):
                     rec.violate('render_changed_stored_results', {'op': op})
                     break
-                h, rows = monitors.reference_table(hold, op['fmt'])
-                if monitors.parse_table(t1) != (h, rows):
-                    rec.violate('render_not_faithful', {'op': op, 'text': t1[:300]})
-                    break
+                if fmt is not None:
+                    h, rows = monitors.reference_table(hold, fmt)
+                    if monitors.parse_table(t1) != (h, rows):
+                        rec.violate('render_not_faithful', {'op': op, 'text': t1[:300]})
+                        break
         nontrivial = reads >= 2 and stressed >= 1
         return {'verdict': 'violated' if rec.violations else 'held', 'nontrivial': nontrivial,
                 'shape': case['kind'], 'counters': rec.counters, 'violations': rec.violations,
